@@ -68,14 +68,15 @@ GenDual(hs, src, tgt) == GenDualT(hs, Alhs(hs), src, tgt, FALSE)
 \* split view: the linear chain is well formed, the binary-linking tree has a foreign leaf at position p
 ForeignLeaf == Junk(99)
 TreeLeaves(hs, p) == [k \in 1..Len(hs) |-> IF k = p THEN ForeignLeaf ELSE HAlh(hs[k])]
-RECURSIVE HistPoison(_, _, _, _)
-HistPoison(shape, var, n, p) ==
+\* ... from transaction q on (the headers before q embed roots of the honest tree: the server switched trees at q)
+RECURSIVE HistPoison(_, _, _, _, _)
+HistPoison(shape, var, n, p, q) ==
   IF n = 0 THEN <<>>
-  ELSE LET hs == HistPoison(shape, var, n - 1, p)
+  ELSE LET hs == HistPoison(shape, var, n - 1, p, q)
            bl == shape[n]
        IN Append(hs, [id |-> n, prev |-> IF n = 1 THEN GenesisAlh ELSE HAlh(hs[n - 1]),
                       ts |-> 100 + n, ver |-> n % 2, nent |-> 1, eh |-> Eh(n, var[n]),
-                      bl |-> bl, blroot |-> IF bl = 0 THEN ZeroDigest ELSE MTH(TreeLeaves(hs, p), 1, bl)])
+                      bl |-> bl, blroot |-> IF bl = 0 THEN ZeroDigest ELSE MTH(IF n >= q THEN TreeLeaves(hs, p) ELSE Alhs(hs), 1, bl)])
 
 -----------------------------------------------------------------------------
 (* verification (store/verification.go)                                     *)
